@@ -74,7 +74,24 @@ type c12run struct {
 	ntv int
 }
 
-var c12Tops = []string{"contact", "foo", "obj", "results", "été"}
+var c12Tops = []string{"contact", "foo", "obj", "results", "session", "été", "σμ"}
+
+// the contexts clause (a) is evaluated in: the allowed top-level names are whatever the context's properties are,
+// including none at all (then every '@' not followed by '(' is literal)
+var c12BodyContexts = []struct {
+	name string
+	tops []string
+	ctx  func() *types.XObject
+}{
+	{"full", c12Tops, func() *types.XObject { return c12Context("k") }},
+	{"empty", []string{}, func() *types.XObject { return types.NewXObject(map[string]types.XValue{}) }},
+	{"default-only", []string{}, func() *types.XObject {
+		return types.NewXObject(map[string]types.XValue{"__default__": types.NewXText("dflt")})
+	}},
+	{"one", []string{"results"}, func() *types.XObject {
+		return types.NewXObject(map[string]types.XValue{"results": types.NewXText("R")})
+	}},
+}
 
 func c12Context(key string) *types.XObject {
 	m := map[string]types.XValue{
@@ -82,6 +99,8 @@ func c12Context(key string) *types.XObject {
 		"foo":     types.NewXText("FOO"),
 		"results": types.NewXObject(map[string]types.XValue{}),
 		"été":     types.NewXText("summer"),
+		"session": types.NewXText("SESSION"),
+		"σμ":      types.NewXText("sigma-mu"),
 	}
 	m["obj"] = types.NewXObject(map[string]types.XValue{key: types.NewXText("value-of-key")})
 	return types.NewXObject(m)
@@ -89,7 +108,7 @@ func c12Context(key string) *types.XObject {
 
 // string generator -----------------------------------------------------------------------------
 
-var litAlphabet = []string{`"`, `"`, `\`, `\`, `\\`, `\"`, `"\`, "(", ")", "((", "))", ")(", "@", "@@", "@(", "@contact", "\n", "\r", "\r\n", "\t", "\u0001", "\u001f", "\u007f", "\u0085", "\u2028", "\ufeff", "\u00a0",
+var litAlphabet = []string{"\ufffd", "\ufffd", "\ufffe", "\ufdd0", "ſ", "ς", "µ", "K", "ı", "\u200b", "\u200d", "\u0301", `"`, `"`, `\`, `\`, `\\`, `\"`, `"\`, "(", ")", "((", "))", ")(", "@", "@@", "@(", "@contact", "\n", "\r", "\r\n", "\t", "\u0001", "\u001f", "\u007f", "\u0085", "\u2028", "\ufeff", "\u00a0",
 	"😀", "𝒳", "\U0010FFFF", "é", "é", "日", "ß", "İ", " ", " ", "a", "b", "Z", "0", "1", "'", "&", ",", "[", "]", "=>", "u005c", "x5c", "n", "t", "u", "x", `\n`, `\t`, `A`, `\x`, `\u`, "{", "}", "%", "#", "$", "`", "<", ">", "=", "+", "-", "."}
 
 func litString(r *fw.Rand) string {
@@ -620,8 +639,11 @@ func inBodyClass(text string, tops []string) (in bool, doubles, lones int) {
 
 var atPieces = []string{"@@", "@@", "@@", "@ ", "@", "@.", "@. ", "@1", "@_", "@é", "@contactx", "@nyaruka.com", "@Contact2", "@x.contact", "@foo_bar", "@_foo", "@fo", "@FOOD", "@résultats",
 	"@@contact", "@@(1 + 2)", "@@foo.bar", "@@@@", "@@@ ", "bob@nyaruka.com", "a@b.c@d.e", "@-", "@\"", "@)", "@\\", "@\n", "@@@@@@", "@été1", "@x(", "@9foo", "@contact_", "@😀", "@½", "@٣x", "@²",
+	// look-alikes of allowed names: letters that lower-casing leaves alone but case folding identifies (long s, final
+	// sigma, micro sign), the replacement character and invisible characters next to '@' and inside names
+	"@reſults", "@reſultſ", "@ſession", "bob@ſession.org", "@seſsion.x", "@ςμ", "@σµ", "@ΣΜx", "@\ufffd", "@\ufffdcontact", "@contact\ufffd", "\ufffd", "x\ufffdy ", "@\u200bcontact", "@foo\u0301", "@fo\u200do",
 	// not in the class (filtered out by inBodyClass, counted)
-	"@contact", "@(1)", "@foo.x"}
+	"@contact", "@(1)", "@foo.x", "@Session", "@ΣΜ"}
 
 func (k *c12run) bodyText(s string) string {
 	var b strings.Builder
@@ -645,14 +667,23 @@ func (k *c12run) checkBody(text string) {
 	if strings.ContainsRune(text, 0) || !utf8.ValidString(text) {
 		return
 	}
-	in, doubles, lones := inBodyClass(text, c12Tops)
+	for _, bc := range c12BodyContexts {
+		k.checkBodyIn(text, bc.name, bc.tops, bc.ctx())
+	}
+}
+
+func (k *c12run) checkBodyIn(text, ctxName string, tops []string, ctx *types.XObject) {
+	in, doubles, lones := inBodyClass(text, tops)
 	if !in {
 		k.res.Count("a.skipped_not_in_class", 1)
 		return
 	}
-	ctx := c12Context("k")
 	want := strings.ReplaceAll(text, "@@", "@")
 	k.res.Count("clause.a.body_passthrough", 1)
+	k.res.Count("a.context."+ctxName, 1)
+	if strings.ContainsRune(text, '\ufffd') {
+		k.res.Count("a.texts_with_replacement_char", 1)
+	}
 	if doubles > 0 {
 		k.res.Count("a.texts_with_double_at", 1)
 	}
@@ -674,8 +705,11 @@ func (k *c12run) checkBody(text string) {
 	}
 	toks, _ := scanAll(text, ctx.Properties())
 	k.res.Count("violations.body", 1)
+	if ctxName != "full" {
+		class += "|context:" + ctxName
+	}
 	k.res.Violate("body-text-changed|"+class, "literal template text (every '@' doubled or followed by neither '(' nor an allowed top-level name) did not pass through Evaluator.Template unchanged modulo '@@' -> '@'",
-		map[string]any{"template": text, "expected": want, "observed": o.describe(), "scanner_tokens": describeTokens(toks), "allowed_top_levels": c12Tops})
+		map[string]any{"template": text, "expected": want, "observed": o.describe(), "scanner_tokens": describeTokens(toks), "allowed_top_levels": tops, "context": ctxName})
 }
 
 func (k *c12run) directedBodies() {
